@@ -441,6 +441,75 @@ def c06_work(task):
     return {"cov": cov, "viol": viol}
 
 
+def c06_large(task):
+    """Large window counts (hundreds / a thousand windows per duration)."""
+    w_s, rate = task
+    w = Decimal(w_s)
+    cov = {"evaluations": 0, "distinct_nontrivial": 0, "large_rows_not_exhaustive": 0, "ambiguous_skipped": 0, "samples": []}
+    viol = []
+    ks = (127, 128, 129, 255, 256, 257, 351, 419, 512, 1000, 1024)
+    for kmin, kmax in ((127, 128), (129, 129), (255, 257), (256, 351), (351, 351), (419, 512), (419, 419), (1000, 1024), (1024, 1024)):
+        for ksil in (0, 3, 126):
+            for dmin, dmax in ((Decimal(0), Decimal(0)), (Decimal("0.0004"), Decimal(0)), (Decimal(0), Decimal("-0.0004"))):
+                cov["evaluations"] += 1
+                cov["large_rows_not_exhaustive"] += 1
+                mind, maxd, sil = kmin * w + dmin, kmax * w + dmax, ksil * w
+                msg = c06_single(w_s, rate, mind, maxd, sil, False)
+                cov["distinct_nontrivial"] += 1
+                if msg and len(viol) < 4:
+                    viol.append(("durations-large min=%s max=%s sil=%s w=%s rate=%d" % (mind, maxd, sil, w_s, rate), msg,
+                                 {"kind": "c06", "min": str(mind), "max": str(maxd), "sil": str(sil), "w": w_s, "rate": rate, "reader": False}))
+    cov["samples"].append({"w": w_s, "rate": rate, "large_window_counts": list(ks)})
+    return {"cov": cov, "viol": viol}
+
+
+def c06_hop(task):
+    """An AudioReader with overlapping windows: w is still its block duration, counts are in reads."""
+    w_s, rate = task
+    L = lib()
+    w = Decimal(w_s)
+    bs = int(float(w) * rate)
+    hs = bs // 2
+    cov = {"evaluations": 0, "distinct_nontrivial": 0, "samples": []}
+    viol = []
+    if hs == 0 or bs % 2:
+        return {"cov": cov, "viol": viol}
+    w_eff = Fraction(bs, rate)
+    for kmn, kmx, ksl in itertools.product((1, 2, 4), (4, 5, 10), (0, 1, 2)):
+        for dmn, dmx in ((Decimal(0), Decimal(0)), (Decimal("0.0004"), Decimal("-0.0004"))):
+            mind, maxd, sil = kmn * w + dmn, kmx * w + dmx, ksl * w
+            cov["evaluations"] += 1
+            mn, mx, ms = counts(Fraction(mind), Fraction(maxd), Fraction(sil), w_eff)
+            if any(ambiguous(Fraction(x) / w_eff) for x in (mind, maxd, sil)):
+                continue
+            want_err = mn > mx or ms >= mx
+            flags = probe_flags(mn, mx, ms) if not want_err else [True, False, True]
+            # one half-window per flag: read k starts at half-window k, so its first byte carries flag k
+            data = b"".join((b"\x01" if v else b"\x00") * hs for v in flags) + b"\x00" * hs
+            try:
+                rd = L["util"].AudioReader(data, block_dur=float(w), hop_dur=float(w) / 2, sr=rate, sw=1, ch=1)
+                regs = list(L["core"].split(rd, min_dur=float(mind), max_dur=float(maxd), max_silence=float(sil), validator=FirstByte()))
+                if want_err:
+                    msg = "accepted; the statement requires ValueError (windows %d/%d/%d)" % (mn, mx, ms)
+                else:
+                    got = []
+                    for r in regs:
+                        k0 = round(r.start / float(w_eff))
+                        got.append((k0, k0 + len(r) // bs - 1))
+                    exp = tm.segment(flags, mn, mx, ms, 0)
+                    msg = None if got == exp else "overlapping reader: events %r; with %d/%d/%d windows they would be %r" % (got[:6], mn, mx, ms, exp[:6])
+                    cov["distinct_nontrivial"] += 1
+            except ValueError as exc:
+                msg = None if want_err else "ValueError %s; the statement accepts (windows %d/%d/%d)" % (str(exc)[:80], mn, mx, ms)
+            except Exception as exc:
+                msg = "raised %r" % (exc,)
+            if msg and len(viol) < 4:
+                viol.append(("durations-hop min=%s max=%s sil=%s w=%s rate=%d" % (mind, maxd, sil, w_s, rate), msg,
+                             {"kind": "c06hop", "w": w_s, "rate": rate}))
+    cov["samples"].append({"overlapping_reader": True, "w": w_s, "rate": rate})
+    return {"cov": cov, "viol": viol}
+
+
 def c06_signed_table(rep):
     """Non-positive / negative arguments: ValueError exactly for the stated reasons."""
     L = lib()
@@ -621,6 +690,7 @@ def c09_work(task):
             fp.write(data)
     ap = dict(sampling_rate=rate, sample_width=sw, channels=ch)
     eth = eth_for(sw)
+    bps_ = sw * ch
 
     def complain(key, msg, case):
         if len(viol) < 8:
@@ -687,6 +757,25 @@ def c09_work(task):
                     cov["distinct_nontrivial"] += 1
                 if msg:
                     complain("container %s %s" % (kind, tag), msg, {"what": "container", "container": kind, "tuple": [mn, mx, ms], "uc": uc})
+            # an AudioSource handed over with its cursor already advanced: the supplied audio starts there
+            for adv in (W, 2 * W + 1):
+                if adv * bps_ >= len(data):
+                    continue
+                rest = data[adv * bps_ :]
+                for mrk in (None, (W + 1) / rate, (3 * W) / rate):
+                    cov["evaluations"] += 1
+                    src = aio.BufferAudioSource(data, rate, sw, ch)
+                    src.position = adv
+                    kwm = {} if mrk is None else {"max_read": mrk}
+                    refm = regions_sig(core.split(rest if mrk is None else rest[: round(mrk * rate) * bps_], **base_kw, **long_kw, **ap), rate)
+                    try:
+                        got = regions_sig(core.split(src, **base_kw, **long_kw, **kwm), rate)
+                        msg = None if got == refm else "pre-advanced source (by %d samples, max_read=%r) gives %r, the audio from there gives %r" % (
+                            adv, mrk, [(s_, len(x)) for s_, x in got], [(s_, len(x)) for s_, x in refm])
+                    except Exception as exc:
+                        msg = "pre-advanced source raised %r" % (exc,)
+                    if msg:
+                        complain("pre-advanced %d max_read=%r %s" % (adv, mrk, tag), msg, {"what": "preadv", "tuple": [mn, mx, ms], "uc": uc})
             # spellings: short alone, and long + a wrong short value (the long name wins)
             longs = dict(sampling_rate=rate, sample_width=sw, channels=ch, analysis_window=aw, energy_threshold=eth, use_channel=uc)
             wrong = dict(sr=rate * 2, sw=(1 if sw != 1 else 2), ch=ch + 1, aw=aw * 2, eth=eth + 60, uc=(0 if uc != 0 else "mix"))
@@ -732,18 +821,25 @@ def c09_work(task):
             ts = [0, 1 / rate, (W + 0.5) / rate, W / rate, (2 * W + 0.25) / rate, (nsamp - 1) / rate, nsamp / rate, (nsamp + 3) / rate,
                   (W + 0.75) / rate]
             for t in ts:
-                q = Fraction(t) * rate
-                fr = q - (q.numerator // q.denominator)
-                if fr != Fraction(1, 2) and abs(fr - Fraction(1, 2)) < Fraction(1, 10 ** 9):
-                    continue
-                k = round(t * rate)
+                k = round(t * rate)  # R4: the statement names round(t*rate)
                 ref = regions_sig(core.split(data[: k * bps], **base_kw, **long_kw, **ap), rate)
-                for kw, nm in ((dict(max_read=t), "max_read"), (dict(mr=t), "mr"), (dict(max_read=t, mr=t / 2 + 0.3), "both")):
-                    for kind in ("bytes", "wav_lazy"):
+                for kw, nm in ((dict(max_read=t), "max_read"), (dict(mr=t), "mr"), (dict(max_read=t, mr=t / 2), "both-smaller"),
+                               (dict(max_read=t, mr=2 * t + 0.3), "both-larger")):
+                    for kind in ("bytes", "wav_lazy", "wav", "raw", "raw_lazy", "buffer_source"):
+                        if nm.startswith("both") and kind == "raw_lazy":
+                            continue
                         cov["evaluations"] += 1
                         try:
                             if kind == "bytes":
                                 got = regions_sig(core.split(data, **base_kw, **long_kw, **ap, **kw), rate)
+                            elif kind == "wav":
+                                got = regions_sig(core.split(wavf, **base_kw, **long_kw, **kw), rate)
+                            elif kind == "raw":
+                                got = regions_sig(core.split(rawf, **base_kw, **long_kw, **ap, **kw), rate)
+                            elif kind == "raw_lazy":
+                                got = regions_sig(core.split(rawf, large_file=True, **base_kw, **long_kw, **ap, **kw), rate)
+                            elif kind == "buffer_source":
+                                got = regions_sig(core.split(aio.BufferAudioSource(data, rate, sw, ch), **base_kw, **long_kw, **kw), rate)
                             else:
                                 got = regions_sig(core.split(wavf, large_file=True, **base_kw, **long_kw, **kw), rate)
                             msg = None if got == ref else "%s=%r on %s gives %r, the first %d samples give %r" % (
@@ -833,7 +929,9 @@ def run(prop, tier):
                            "ValueError as the statement requires, or split() run on a probe signal whose segmentation differs for "
                            "every neighbouring window count; non-trivial = accepted tuples whose observed events were compared")
         rep.cov["bounds"] = {"windows": ws, "k": kq + stripe if quick else kt, "rates": [100, 1000, 8000, 16000]}
-        for part in common.pmap(c06_work, tasks):
+        xt = [("L", (w_, 100)) for w_ in ("0.01", "0.05", "0.1")] + [("L", ("0.01", 1000))]
+        xt += [("H", (w_, r_)) for w_, r_ in (("0.02", 100), ("0.1", 100), ("0.01", 1000), ("0.05", 8000))]
+        for part in common.pmap(_c06_dispatch, [("w", t) for t in tasks] + xt):
             rep.merge(part)
         rep.assumptions += ["quotients engineered to fall between 1e-10 and 1e-8 of an integer are outside the alphabet "
                             "(counted as ambiguous_skipped)"]
@@ -843,9 +941,15 @@ def run(prop, tier):
         recs = [(2, 1, 10, 1, "AaAAaaA", 0), (1, 2, 20, 2, "aAAaA", 1), (4, 3, 30, 3, "AAaAa", 2), (2, 2, 16, 2, "AaaAAAAa", 0),
                 (1, 1, 8, 4, "AAaaAa", 3), (4, 1, 10, 1, "aAaAAAAA", 0),
                 (2, 1, 16000, 4, "AaAAaAAA", 2), (2, 2, 8000, 3, "AAAaAAaA", 0),  # sub-millisecond sample periods
-                (2, 2, 96000, 19200, "AaAA", 777), (1, 3, 65536, 32769, "AAa", 5)]  # windows larger than 16384 / 32768 samples
+                (2, 2, 96000, 19200, "AaAA", 777), (1, 3, 65536, 32769, "AAa", 5),  # windows larger than 16384 / 32768 samples
+                (2, 1, 16000, 800, ("aaAAAaAAAAaa" * 9)[:100], 333)]  # > 64 KiB, window size not dividing 65536
         if not quick:
             recs += [(2, 3, 10, 1, "AAAAAAAA", 0), (2, 2, 20, 2, "", 1), (1, 3, 9, 3, "aaaa", 0), (4, 2, 70, 7, "AaAaA", 5)]
+            # every activity pattern of up to 5 windows in two formats
+            for n_ in range(1, 6):
+                for bits_ in range(1 << n_):
+                    pat_ = "".join("A" if (bits_ >> i_) & 1 else "a" for i_ in range(n_))
+                    recs.append(((2, 1, 10, 1) if bits_ % 2 else (1, 2, 12, 3)) + (pat_, bits_ % 3))
         tasks = [r + (tier,) for r in recs]
         rep.cov["rule"] = ("one evaluation = one split() call through one container / spelling / max_read variant compared with "
                            "the baseline; non-trivial when the baseline has regions")
@@ -857,6 +961,14 @@ def run(prop, tier):
     rep.cov["transitions"] = max(rep.cov.get("transitions", 0), rep.cov["evaluations"])
     rep.cov["traces_validated_against_impl"] = rep.cov["evaluations"]
     return rep.finish()
+
+
+def _c06_dispatch(t):
+    if t[0] == "L":
+        return c06_large(t[1])
+    if t[0] == "H":
+        return c06_hop(t[1])
+    return c06_work(t[1])
 
 
 def _c05_dispatch(t):
@@ -883,6 +995,9 @@ def replay(case):
         # re-run just this tuple through the worker logic
         part = c06_single(case["w"], case["rate"], mind, maxd, sil, case["reader"])
         return part
+    if k == "c06hop":
+        part = c06_hop((case["w"], case["rate"]))
+        return part["viol"][0][1] if part["viol"] else None
     if k == "c06signed":
         rep = common.Report("C06", "quick", "")
         c06_signed_table(rep)
